@@ -16,6 +16,12 @@ CHECKS = {
     "C06": dict(tech="TLC trace validation of traced-Merlin operation logs of both roles against the specification's operation schedule (order-preserving embedding), RoleSync invariant",
                 text="Every transcript operation of prover and verifier (label, payload identity, order, challenges, forks, RNG construction) recorded from the real code is matched by TLC against the schedule the specification derives for the statement and proof shape; returned transcripts must drive equal follow-up challenges.",
                 note="payload identity by value on toy curves; extra identical appends tolerated (C18 demands equality)", ref="5 C06"),
+    "C15": dict(tech="TLC model checking of LCDenotation over all expression trees (MC_LC) + replay of every tree built with the real operators (accept at the value, reject off by one) + TLC trace validation on toy curves",
+                text="Every expression tree up to the depth bound is enumerated by TLC, the specification's transcription of each operator impl is checked against the tree's meaning, and each tree is built with the real operators and constrained to its value (must verify) and to its value plus one (must not) on all curves.",
+                note="depth 1 (all leaf kinds) quick, depth 2 thorough; real-curve constants computed by the harness evaluator, which TLC cross-checks on toy runs", ref="5 C15"),
+    "C17": dict(tech="TLC enumeration of the full (n1, n2, capP, capV) grid with ThresholdExact on the protocol model's guards + replay of every grid point on the real code",
+                text="The whole grid is enumerated; the model's expected result (ok / InvalidGeneratorsLength) for prove and verify at each point is compared with the real code on all curves, panics are violations, and proofs made at different sufficient capacities with the same seed must be byte-identical.",
+                note="grid (0..5)^2 x (0..9)^2 quick, (0..9)^2 x (0..17)^2 thorough", ref="5 C17"),
     "C16": dict(tech="TLC model checking of the lock-step builder model (MC_Builder) + replay of every generated call sequence on the real Prover and Verifier",
                 text="All call sequences up to the bound are enumerated by TLC (mirror/pending/error invariants) and each is replayed on the real code comparing handles, error kinds and gate counts call by call in both phases.",
                 note="bounded call depth (6-8 for invariants, 4-5 for replay); second-phase calls placed in the first callback", ref="5 C16"),
